@@ -12,11 +12,13 @@ import (
 	"errors"
 	"fmt"
 	"math/rand/v2"
+	"net/netip"
 	"path"
 	"reflect"
 	"sort"
 	"strings"
 	"testing"
+	"time"
 
 	"github.com/tailscale/setec/client/setec"
 
@@ -184,8 +186,10 @@ func TestC20(t *testing.T) {
 	if r.Only < 0 {
 		taggedEmbedded(r)
 		severalStructs(r)
+		hangingField(r)
+		dualUnmarshalers(r)
 	}
-	r.Require("stores_over_several_structs", "tagged_embedded_fields", "populated_structs", "rejected_shapes", "rejected_arguments", "failing_field_cases", "bytes_fields_mutated", "secret_fields_followed_poll", "shared_secret_fields", "embedded_structs", "untagged_fields_checked", "second_applies")
+	r.Require("applies_with_a_hanging_field", "dual_unmarshaler_fields", "stores_over_several_structs", "tagged_embedded_fields", "populated_structs", "rejected_shapes", "rejected_arguments", "failing_field_cases", "bytes_fields_mutated", "secret_fields_followed_poll", "shared_secret_fields", "embedded_structs", "untagged_fields_checked", "second_applies")
 	r.Rule("struct types generated at run time: 1-8 fields in random order from {[]byte, string, setec.Secret, value/pointer BinaryUnmarshaler, ',json' struct/map/int} + unsupported {int, []string, *string, map[string]string, bool, empty tag name} + untagged fields of 5 kinds with sentinel contents, optionally one embedded predeclared struct; prefixes {'', a, a/b, dev/prog}; several fields may name the same secret; scripted failing fields (bad JSON, UnmarshalBinary error); via StoreConfig.Structs and via ParseFields+Apply. Distinct = (entry point, sorted set of field kinds, has failing field, prefix)")
 }
 
@@ -915,6 +919,111 @@ func severalStructs(r *evid.Run) {
 				r.Violation("field-value-wrong", -1, fmt.Sprintf("%s: struct #%d holds %+v", desc, i, v), nil)
 				break
 			}
+		}
+	}
+}
+
+type withSlow struct {
+	A    string       `setec:"a"`
+	Slow string       `setec:"slow"`
+	B    []byte       `setec:"b"`
+	C    string       `setec:"c"`
+	H    setec.Secret `setec:"c"`
+}
+
+// hangingField: Apply under a deadline; the secret of one field in the middle is unknown to the store and
+// the service never answers for it. That field fails (reported); the fields around it, whose secrets the store
+// holds, are filled all the same.
+func hangingField(r *evid.Run) {
+	for c := 0; c < 6; c++ {
+		svc := fakesvc.New()
+		for _, n := range []string{"p/a", "p/b", "p/c", "p/slow"} {
+			svc.Set(n, 1, []byte("value-of-"+n))
+		}
+		svc.Behave = func(q *fakesvc.Req) fakesvc.Behaviour {
+			if q.Name == "p/slow" {
+				return fakesvc.Behaviour{Hold: make(chan struct{})} // until the caller gives up
+			}
+			return fakesvc.Behaviour{}
+		}
+		st, err := setec.NewStore(context.Background(), setec.StoreConfig{Client: svc, Secrets: []string{"p/a", "p/b", "p/c"}, AllowLookup: true, PollInterval: -1, Logf: func(string, ...any) {}})
+		if err != nil {
+			r.Violation("newstore-fails", -1, err.Error(), nil)
+			return
+		}
+		var v withSlow
+		f, err := setec.ParseFields(&v, "p")
+		if err != nil {
+			r.Violation("spurious-error", -1, err.Error(), nil)
+			st.Close()
+			return
+		}
+		ctx, cancel := context.WithTimeout(context.Background(), time.Duration(20+30*c)*time.Millisecond)
+		aerr := f.Apply(ctx, st)
+		cancel()
+		r.Eval(1)
+		r.Count("applies_with_a_hanging_field", 1)
+		if aerr == nil {
+			r.Violation("failure-unreported", -1, "Apply under a deadline with one field whose secret never arrives returned no error", nil)
+		}
+		if v.A != "value-of-p/a" || string(v.B) != "value-of-p/b" || v.C != "value-of-p/c" || v.H == nil || string(v.H.Get()) != "value-of-p/c" {
+			r.Violation("failing-field-blocks-others", -1, fmt.Sprintf("Apply under a deadline: the field Slow failed (%v); the fields around it, whose secrets the store already holds, were left as A=%q B=%q C=%q H set=%t", aerr, v.A, v.B, v.C, v.H != nil), nil)
+		}
+		st.Close()
+	}
+	r.Distinct("apply with a hanging field")
+}
+
+// Dual implements both encoding.BinaryUnmarshaler and encoding.TextUnmarshaler (as time.Time and netip.Addr do).
+type Dual struct{ Via, Got string }
+
+func (d *Dual) UnmarshalBinary(b []byte) error { d.Via, d.Got = "binary", string(b); return nil }
+func (d *Dual) UnmarshalText(b []byte) error   { d.Via, d.Got = "text", string(b); return nil }
+
+type withDual struct {
+	D  Dual       `setec:"d"`
+	P  *Dual      `setec:"d"`
+	T  time.Time  `setec:"t"`
+	IP netip.Addr `setec:"ip"`
+}
+
+// dualUnmarshalers: a field without the json flag whose type can unmarshal itself is filled by UnmarshalBinary -
+// also when the type offers other decoding methods as well.
+func dualUnmarshalers(r *evid.Run) {
+	when := time.Date(2024, 2, 29, 12, 30, 45, 123456789, time.FixedZone("x", 3600))
+	tb, _ := when.MarshalBinary()
+	ip := netip.MustParseAddr("fd7a:115c:a1e0::53")
+	ib, _ := ip.MarshalBinary()
+	for _, entry := range []string{"newstore", "apply"} {
+		svc := fakesvc.New()
+		svc.Set("q/d", 1, []byte("\x00\x01 not text \xff"))
+		svc.Set("q/t", 1, tb)
+		svc.Set("q/ip", 1, ib)
+		var v withDual
+		var err error
+		var st *setec.Store
+		if entry == "newstore" {
+			st, err = setec.NewStore(context.Background(), setec.StoreConfig{Client: svc, Structs: []setec.Struct{{Value: &v, Prefix: "q"}}, PollInterval: -1, Logf: func(string, ...any) {}})
+		} else {
+			var f *setec.Fields
+			if f, err = setec.ParseFields(&v, "q"); err == nil {
+				if st, err = setec.NewStore(context.Background(), setec.StoreConfig{Client: svc, Secrets: f.Secrets(), PollInterval: -1, Logf: func(string, ...any) {}}); err == nil {
+					err = f.Apply(context.Background(), st)
+				}
+			}
+		}
+		if st != nil {
+			st.Close()
+		}
+		r.Eval(1)
+		r.Count("dual_unmarshaler_fields", 1)
+		r.Distinct("dual unmarshalers via " + entry)
+		if err != nil {
+			r.Violation("spurious-error", -1, fmt.Sprintf("fields whose types implement BinaryUnmarshaler (and more), binary-encoded secrets, via %s: %v", entry, err), nil)
+			continue
+		}
+		if v.D.Via != "binary" || v.P == nil || v.P.Via != "binary" || v.D.Got != "\x00\x01 not text \xff" || !v.T.Equal(when) || v.IP != ip {
+			r.Violation("field-value-wrong", -1, fmt.Sprintf("via %s: D filled via %q, P via %v, T=%v (want %v), IP=%v (want %v)", entry, v.D.Via, v.P, v.T, when, v.IP, ip), nil)
 		}
 	}
 }
